@@ -43,7 +43,14 @@ SPEC = {
              "good; key file in a missing directory; several destinations; formats alternating; sub-configuration key "
              "file repaired and rotated); then seeded random schemas (depth <= 2) x random 0-2 faults x random key-file "
              "states, and random histories of 2-6 steps (saves with fresh faults, external writes/deletes of key files "
-             "and destinations). non-trivial = the destination existed before or a fault was injected; "
+             "and destinations); the round-trip matrix of the success clause: every kind of plain Python value an untyped "
+             "field accepts (tuples, nested tuples, tuples inside lists/dicts, int dict keys, sets, frozensets, bytes, "
+             "bytearray, 2^70, inf, complex, NUL / non-ASCII strings, nested maps) x AnyField / untyped ListField / "
+             "untyped DictField x 5 formats -- the save fails exactly where the format's dumps refuses the value "
+             "(measured table OUTSIDE) and otherwise the file must load into a fresh configuration holding an equal "
+             "value of the same types (only JSON/BSON tuple -> list allowed) -- and secrets of UTF-8 length "
+             "0,1,15,16,17,31,32,33,48 (2-byte characters) x aes/best/xor at the root, in a sub-configuration, two "
+             "levels deep and in list items, with an existing and a freshly created key file. non-trivial = the destination existed before or a fault was injected; "
              "distinct = distinct (schema, values, faults, world)"),
     "trusted_base": [KERNEL, "Print Assumptions: closed under the global context (no axioms)", TIE, HARNESS,
                      "modelled, not verified: the file system as a map path -> bytes with a set of unwritable paths; "
@@ -64,6 +71,12 @@ SPEC = {
                     "are not in the modelled schemas (generators avoid them)",
                     "the reload comparison skips configurations whose sub-configuration names its own key file and holds a "
                     "secret (open finding F34 of C03); bytes-on-disk are still checked there",
+                    "observed, not counted (outside the formats' representable domain: C02/C04 speak of string-keyed maps, XML keys "
+                    "are XML names): an untyped field holding a map with non-string keys saves under JSON and BSON and loads "
+                    "back with string keys ({1: 'a'} -> {'1': 'a'}; True -> 'true'/'True', None -> 'null'/'None'), and under "
+                    "XML {None: 1} saves and loads back as {}. Generated untyped maps have string keys under json/bson/xml; "
+                    "int keys are kept under yaml/pickle, where they round-trip (NOT_REPRESENTABLE in s_savefaults.py)",
+                    "an empty SecureField value '' is stored as null and loads back as None: treated as equal",
                     "load_after_save is stated over a decoder assumed to invert the formatter (C04); equality of the "
                     "reloaded configuration is C02 and is only sampled here (oracle)"],
 }
